@@ -37,7 +37,7 @@ func Generate(env *dsl.Environment, options packaging.PythonCodegenOptions) erro
 	}
 
 	topNamespace := env.GetTopLevelNamespace()
-	topPackageDir := path.Join(options.OutputDir, formatting.ToSnakeCase(topNamespace.Name))
+	topPackageDir := path.Join(options.OutputDir, common.NamespaceIdentifierName(topNamespace.Name))
 	if err := iocommon.CopyEmbeddedStaticFiles(topPackageDir, options.InternalSymlinkStaticFiles, staticFiles); err != nil {
 		return err
 	}
@@ -50,7 +50,7 @@ func Generate(env *dsl.Environment, options packaging.PythonCodegenOptions) erro
 	for _, ns := range env.Namespaces {
 		packageDir := topPackageDir
 		if !ns.IsTopLevel {
-			packageDir = path.Join(packageDir, formatting.ToSnakeCase(ns.Name))
+			packageDir = path.Join(packageDir, common.NamespaceIdentifierName(ns.Name))
 		}
 		err = writeNamespace(ns, env.SymbolTable, packageDir, options.GenerateNDJson)
 		if err != nil {
